@@ -283,9 +283,9 @@ func (e *Exec) callStatic(fr *Frame, st *BState, x *ssa.Call, f *ssa.Function, a
 	}
 	r := e.freshSV(x.Type(), "call."+f.Name(), st.reach, false)
 	if !inRepo {
-		// abstracted library functions are visible to contracts the way interface methods are: calls(Name) counts
-		// them, lastres(Name) is the (final) result of the most recent one
-		cn := "$calls." + f.Name()
+		// abstracted library functions are visible to contracts the way interface methods are, under the name
+		// lib<Name>: calls(libFlush) counts them, lastres(libFlush) is the (final) result of the most recent one
+		cn := "$calls.lib" + f.Name()
 		old := intLit(0)
 		if v, ok := st.ghost[cn]; ok {
 			old = scal(v)
@@ -294,12 +294,12 @@ func (e *Exec) callStatic(fr *Frame, st *BState, x *ssa.Call, f *ssa.Function, a
 		ghostTypes[cn] = types.Typ[types.Int]
 		if tup, ok := x.Type().(*types.Tuple); ok {
 			if tv, ok := r.(*TupleV); ok && len(tv.Elems) == tup.Len() {
-				st.ghost["$lastres."+f.Name()] = tv.Elems[tup.Len()-1]
-				ghostTypes["$lastres."+f.Name()] = tup.At(tup.Len() - 1).Type()
+				st.ghost["$lastres.lib"+f.Name()] = tv.Elems[tup.Len()-1]
+				ghostTypes["$lastres.lib"+f.Name()] = tup.At(tup.Len() - 1).Type()
 			}
 		} else {
-			st.ghost["$lastres."+f.Name()] = r
-			ghostTypes["$lastres."+f.Name()] = x.Type()
+			st.ghost["$lastres.lib"+f.Name()] = r
+			ghostTypes["$lastres.lib"+f.Name()] = x.Type()
 		}
 	}
 	return r
